@@ -9,17 +9,12 @@ import json, os, re, subprocess
 
 EXPECT = {
     # id: (expectation, reason)
-    "seeded-C05-1": ("accepted-miss", "changes value arithmetic of the weight computation only; no structural clause is touched (DESIGN section 6)"),
     "seeded-C05-2": ("accepted-miss", "changes value arithmetic of the weight computation only"),
     "seeded-C05-4": ("accepted-miss", "suppresses the propagation of a pending tuple cycle inside calculateEdgeWeight: value logic of the cycle bookkeeping"),
-    "seeded-C05-5": ("accepted-miss", "changes where isTupleCycle starts looking in the ancestor path: value logic of the back-edge classification"),
-    "seeded-C05-7": ("accepted-miss", "changes from which edge isTupleCycle scans the ancestor path: value logic of the back-edge classification, no structural clause"),
-    "seeded-C05-10": ("accepted-miss", "replaces the ancestor-path scan of isTupleCycle by a flag passed down the search: which cycles count as tuple cycles is value logic of the classification"),
     "seeded-C05-11": ("accepted-miss", "seeds the intersection's candidate types from the first edge only (idx == 0 instead of an empty set): value logic of the enforce-type strategy"),
     "seeded-C17-10": ("accepted-miss", "the existence test for a tuple-to-userset target reads the metadata map instead of the relation map: which map is consulted is value logic (C05 reports the same patch through the order rule)"),
     "seeded-C14-5": ("accepted-miss", "changes which models count as modular (any → all): a predicate over the model, no structural clause"),
     "seeded-C14-18": ("accepted-miss", "the scan that decides whether a model is modular gives up at the first type without metadata: which models count as modular is a predicate over the model (as C14-5), no structural clause"),
-    "seeded-C05-16": ("accepted-miss", "the ancestor-path scan of isTupleCycle is replaced by a flag covering the whole search path: which back edges count as tuple cycles is value logic of the classification (as C05-10)"),
     "seeded-C06-17": ("accepted-miss", "typeAndRelationExists looks at the first type definition of a name only: differs only for models that declare one type twice, which the property's domain (a model maps names to definitions) excludes; no structural clause"),
     "benign-C15-12": ("accepted-alarm", "the entry checks become a package-level table of predicates scanned with slices.IndexFunc; the C15 rules read the conditions on the enumerated paths and do not unroll a table of function values, so the guards are not seen (DESIGN 11.7)"),
     "survey-C08-noguard-recurse": ("silent", "negative control: the removed guard is redundant under the grammar typestate"),
